@@ -268,6 +268,112 @@ func scenario(t *testing.T, idx int64, c ctor, r *rand.Rand) {
 				synctest.Wait()
 				trace = append(trace, fmt.Sprintf("t=%v release whose hand-off the delegate refused; unit taken back", now()))
 				rt.Count("releases_with_refused_handoff", 1)
+			case x == 8 && holder != nil && len(waiting) >= 2 && (c.Evict || c.Timeout <= time.Second):
+				// a release that coincides with the departure of a caller: (a) eviction on - the caller is cancelled and the
+				// holder completes in the same breath, the cancelled caller has not left the backlog yet; (b) the holder
+				// completes at the very instant the oldest caller's backlog time-out fires.  The token must end up with
+				// exactly one caller: the one that was next in order counting the departing caller (it was still queued when
+				// the hand-off happened) or the one that is next among those who stay.
+				head := func(ws []*waiter) *waiter {
+					if len(ws) == 0 {
+						return nil
+					}
+					if c.Order == "lifo" {
+						return ws[len(ws)-1]
+					}
+					return ws[0]
+				}
+				all := append([]*waiter(nil), waiting...)
+				var leaving []*waiter
+				what := ""
+				if c.Evict && (c.Timeout > time.Second || r.IntN(2) == 0) {
+					w := head(waiting)
+					if r.IntN(3) == 0 {
+						w = waiting[r.IntN(len(waiting))]
+					}
+					leaving = []*waiter{w}
+					what = fmt.Sprintf("waiter %d cancelled and holder completes at once", w.id)
+					w.cancel()
+				} else {
+					target := waiting[0].arrived + c.Timeout
+					if target > now() {
+						time.Sleep(target - now())
+					}
+					for _, w := range waiting {
+						if w.arrived+c.Timeout <= now() {
+							leaving = append(leaving, w)
+						}
+					}
+					what = fmt.Sprintf("holder completes at the instant the backlog time-out of %d caller(s) fires", len(leaving))
+				}
+				holder.OnSuccess()
+				holder = nil
+				synctest.Wait()
+				var stay []*waiter
+				for _, w := range all {
+					isLeaving := false
+					for _, e := range leaving {
+						isLeaving = isLeaving || e == w
+					}
+					if !isLeaving {
+						stay = append(stay, w)
+					}
+				}
+				var got []*waiter
+				for _, w := range all {
+					if w.done.Load() && !w.seen && w.ok {
+						got = append(got, w)
+					}
+				}
+				ids := []int{}
+				for _, w := range all {
+					ids = append(ids, w.id)
+				}
+				trace = append(trace, fmt.Sprintf("t=%v %s (waiting, oldest first: %v)", now(), what, ids))
+				rt.Count("releases_coinciding_with_a_departure", 1)
+				for _, w := range leaving {
+					if !w.done.Load() {
+						fail("departing-waiter-did-not-return", rt.J{"waiter": w.id, "what": what})
+						bad = true
+					}
+					w.gone, w.seen = true, true
+				}
+				waiting = stay
+				if bad {
+					continue
+				}
+				if len(got) > 1 || (len(got) == 0 && len(stay) > 0) {
+					fail("release-coinciding-with-a-departure-did-not-grant-exactly-one-waiter", rt.J{"granted": len(got), "waiting_in_arrival_order": ids, "what": what})
+					bad = true
+					continue
+				}
+				if len(got) == 0 { // everybody left: take the unit back
+					h, ok := lim.Acquire(context.Background())
+					if !ok {
+						fail("free-capacity-refused", rt.J{})
+						bad = true
+					}
+					holder = h
+					continue
+				}
+				g := got[0]
+				if g != head(all) && g != head(stay) {
+					fail("granted-out-of-configured-order", rt.J{"granted": g.id, "waiting_in_arrival_order": ids, "what": what})
+					bad = true
+					continue
+				}
+				g.seen = true
+				grants++
+				rt.Count("grants_checked", 1)
+				rt.Count("grants_with_a_choice", 1)
+				trace = append(trace, fmt.Sprintf("t=%v -> waiter %d granted", now(), g.id))
+				for k, w := range waiting {
+					if w == g {
+						waiting = append(waiting[:k], waiting[k+1:]...)
+						break
+					}
+				}
+				holder = g.l
 			default: // release
 				if holder == nil {
 					continue
